@@ -33,7 +33,7 @@ GLUED_NAMES = ["a", "bc", "ab", "c", "b", "abc", "1", "11", "x", "x1"]  # names 
 def plan(tier, seed):
     q = tier == "quick"
     n = 16
-    specs = [{"kind": "mix", "i": i, "n": n, "maxleaves": 6 if q else 7, "sub4_stride": 1, "nrand": 250 if q else 600, "hist": 4, "nsuper": 30 if q else 100, "nbigtriples": 3 if q else 60} for i in range(n)]
+    specs = [{"kind": "mix", "i": i, "n": n, "maxleaves": 6 if q else 7, "sub4_stride": 1, "nrand": 250 if q else 600, "hist": 4, "nsuper": 30 if q else 100, "nbigtriples": 3 if q else 60, "ncomp": 14 if q else 150} for i in range(n)]
     return specs
 
 
@@ -222,6 +222,231 @@ def check_big_triples(ctx, rng, n):
         if bad is not None or sorted(rn1) != sorted(names):
             ctx.viol("C20.onetree", case, f"tree_from_triples returned a tree that does not display {bad}")
     ctx.sig(("bigtriples", n, len(triples), min(len(got_trees), 50)), True)
+
+
+def grow_oracle(order, triples, cap=1000):
+    """Exact, enumeration-free reference for medium leaf sets: every binary tree on k+1 leaves is obtained in exactly one
+    way by grafting the new leaf onto an edge of (or above) its restriction to the first k leaves, and a tree displaying a
+    triple set restricts to a tree displaying the triples among the leaves present.  So growing leaf by leaf and filtering
+    by the triples that have become active enumerates each displaying tree exactly once.  Returns a Counter of clade sets,
+    or None when more than `cap` partial trees are alive (the case is then not observed)."""
+
+    def insert(tree, leaf):
+        yield (tree, leaf)
+        if not isinstance(tree, str):
+            for sub in insert(tree[0], leaf):
+                yield (sub, tree[1])
+            for sub in insert(tree[1], leaf):
+                yield (tree[0], sub)
+
+    def clades_of(tree, out):
+        if isinstance(tree, str):
+            return frozenset([tree])
+        here = clades_of(tree[0], out) | clades_of(tree[1], out)
+        out.append(here)
+        return here
+
+    def shows(cl, t):
+        a, b, c = t
+        return any(a in x and b in x and c not in x for x in cl)
+
+    if any(len(set(t)) != 3 for t in triples):
+        return collections.Counter()  # a triple with a repeated leaf is displayed by no tree
+    trees = [order[0]]
+    keys = [frozenset()]
+    for k in range(1, len(order)):
+        present = set(order[: k + 1])
+        new = order[k]
+        active = [t for t in triples if new in t and set(t) <= present]
+        nxt, keys = [], []
+        for tree in trees:
+            for cand in insert(tree, new):
+                cl = []
+                clades_of(cand, cl)
+                if all(shows(cl, t) for t in active):
+                    nxt.append(cand)
+                    keys.append(frozenset(cl))
+                    if len(nxt) > cap:
+                        return None
+        trees = nxt
+        if not trees:
+            return collections.Counter()
+    return collections.Counter(keys)
+
+
+def component_case(rng):
+    """Triple sets whose Aho graph has several components of very different sizes, the unions inside a component happening
+    in a prescribed order (binomial merging, chains, stars) through triples whose third leaf lies in ANOTHER component:
+    union-by-rank then builds parent chains of different depths, and the two-block coarsenings re-root them.  All triples
+    are displayed by a hidden binary tree in which every component is a clade."""
+    sizes = rng.choice([[2, 4, 8, 1], [3, 4, 8, 1], [1, 2, 4, 8], [8, 4, 2, 1], [2, 4, 8], [2, 2, 4, 4, 1], [3, 5, 6], [1, 1, 2, 4, 4],
+                        [2, 4, 6, 1], [4, 8, 2, 1], [2, 3, 4, 5], [1, 2, 3, 4, 4]])
+    if rng.random() < 0.4:
+        sizes = sizes[:]
+        rng.shuffle(sizes)
+    comps = [[f"{chr(97 + ci)}{k + 1}" for k in range(sz)] for ci, sz in enumerate(sizes)]
+    subtrees = [RT.random_binary(rng, c) if len(c) > 1 else c[0] for c in comps]
+    triples = []
+    pin = rng.random() < 0.7
+    for ci, c in enumerate(comps):
+        others = [x for cj, d in enumerate(comps) if cj != ci for x in d]
+        mode = rng.choice(["binomial", "binomial", "chain", "star", "random"])
+        pairs = []
+        if mode == "binomial":
+            step = 1
+            while step < len(c):
+                pairs += [(c[i], c[i + step]) for i in range(0, len(c) - step, 2 * step)]
+                step *= 2
+        elif mode == "chain":
+            pairs = [(c[i], c[i + 1]) for i in range(len(c) - 1)]
+        elif mode == "star":
+            hub = rng.randrange(len(c))
+            pairs = [(c[hub], c[i]) for i in range(len(c)) if i != hub]
+        else:
+            perm = rng.sample(c, len(c))
+            pairs = [(perm[i], perm[rng.randrange(i + 1, len(perm))]) for i in range(len(perm) - 1)]
+        if rng.random() < 0.3:
+            pairs = [(b, a) for a, b in pairs]
+        comp_tr = []
+        for a, b in pairs:
+            if pin:
+                # one leaf of every other component: every component is then a clade of every displaying tree
+                outs = [rng.choice(comps[cj]) if rng.random() < 0.4 else comps[cj][0] for cj in range(len(comps)) if cj != ci]
+            else:
+                outs = rng.sample(others, min(len(others), rng.choice([1, 1, 2, 3])))
+            comp_tr += [tuple(sorted((a, b))) + (o,) for o in outs]
+        inner = []
+        if len(c) >= 3:
+            M, nm = model_of(subtrees[ci])
+            inner = [t for t in all_triples(c) if displays(M, nm, t)]
+            r = rng.random()
+            if r < 0.5:
+                inner = RT_min_triples(subtrees[ci])
+            elif r < 0.6 and len(c) <= 4:
+                inner = rng.sample(inner, rng.randint(0, min(len(inner), len(c))))
+            else:
+                inner = RT_min_triples(subtrees[ci])
+                for _ in range(rng.randint(1, 2)):
+                    if inner:
+                        inner.pop(rng.randrange(len(inner)))
+        triples.append((comp_tr, inner))
+    flat = []
+    order_mode = rng.choice(["cross_first", "by_component", "by_component_rev", "shuffled"])
+    if order_mode == "cross_first":
+        for ct, _ in triples:
+            flat += ct
+        for _, it in triples:
+            flat += it
+    elif order_mode in ("by_component", "by_component_rev"):
+        seq = triples if order_mode == "by_component" else triples[::-1]
+        for ct, it in seq:
+            flat += ct + it
+    else:
+        for ct, it in triples:
+            flat += ct + it
+        rng.shuffle(flat)
+    seen = set()
+    flat = [t for t in flat if not (t in seen or seen.add(t))]
+    leaves = [x for c in comps for x in c]
+    lm = rng.choice(["grouped", "grouped", "reversed_groups", "shuffled"])
+    if lm == "reversed_groups":
+        leaves = [x for c in comps[::-1] for x in c]
+    elif lm == "shuffled":
+        rng.shuffle(leaves)
+    hidden = subtrees[0]
+    for st in subtrees[1:]:
+        hidden = [hidden, st] if rng.random() < 0.5 else [st, hidden]
+    return leaves, flat, hidden, comps
+
+
+def RT_min_triples(nested):
+    """One triple per (internal node, child subtree pair) chain: enough to pin the tree down (BreakUp-style)."""
+    res = []
+
+    def rec(x):
+        if isinstance(x, str):
+            return [x]
+        l, r = rec(x[0]), rec(x[1])
+        for inner, outer in ((l, r), (r, l)):
+            for i in range(len(inner) - 1):
+                res.append(tuple(sorted((inner[i], inner[i + 1]))) + (outer[0],))
+        return l + r
+
+    rec(nested)
+    return res
+
+
+def check_component_triples(ctx, leaves, triples, hidden=None, budget_s=8):
+    """all_trees_from_triples / tree_from_triples on 8-17 leaves against the grow-and-filter reference (exact set, each
+    tree once)."""
+    import signal
+
+    import superrec2.utils.trees as UT
+
+    case = {"kind": "comptriples", "leaves": list(leaves), "triples": [list(t) for t in triples], "hidden": RT.tolist(hidden) if hidden is not None else None}
+    comps_first = sorted(leaves, key=lambda x: (x[:1], len(x), x))
+    want = grow_oracle(comps_first, [tuple(t) for t in triples])
+    if want is None:
+        ctx.count("skipped_large")
+        return
+    if hidden is not None:
+        H, _ = model_of(hidden)
+        if frozenset(c for c in H.clades() if len(c) >= 2) not in want:
+            raise Inconclusive("C20 grow-and-filter reference does not contain the hidden tree it was built from")
+
+    class _Budget(BaseException):
+        pass
+
+    def _alarm(signum, frame):
+        raise _Budget()
+
+    old = signal.signal(signal.SIGALRM, _alarm)
+    signal.setitimer(signal.ITIMER_REAL, budget_s)
+    try:
+        got_trees = UT.all_trees_from_triples(list(leaves), [tuple(t) for t in triples])
+        one = UT.tree_from_triples(list(leaves), [tuple(t) for t in triples])
+    except (_Budget, MemoryError):
+        ctx.count("skipped_budget")
+        return
+    except Exception as exc:  # noqa: BLE001
+        ctx.viol("C20.alltrees", case, f"raised {type(exc).__name__}: {exc}")
+        return
+    finally:
+        signal.setitimer(signal.ITIMER_REAL, 0)
+        signal.signal(signal.SIGALRM, old)
+    ctx.count("evaluations", 2)
+    ctx.count("mon.component_triple_sets")
+    got = collections.Counter()
+    for t in got_trees:
+        R, rn = model_of(nested_of_ete(t))
+        if not R.is_binary() or sorted(rn) != sorted(leaves):
+            ctx.viol("C20.alltrees", case, "all_trees_from_triples returned a tree that is not binary or has another leaf set")
+            return
+        got[frozenset(c for c in R.clades() if len(c) >= 2)] += 1
+    want_keys = set(want)
+    got_keys = set(got)
+    if any(v > 1 for v in got.values()):
+        ctx.viol("C20.alltrees", case, "a tree is returned more than once")
+    extra, missing = got_keys - want_keys, want_keys - got_keys
+    if extra:
+        w = next(iter(extra))
+        bad = next((tr for tr in triples if not any(tr[0] in c and tr[1] in c and tr[2] not in c for c in w)), None)
+        ctx.viol("C20.alltrees", case, f"{len(extra)} of the {len(got_keys)} returned trees on {len(leaves)} leaves do not display every triple (e.g. {bad}); the reference has {len(want_keys)}")
+    if missing:
+        ctx.viol("C20.alltrees", case, f"{len(missing)} displaying binary tree(s) missing: {len(got_keys)} returned, the reference has {len(want_keys)} on {len(leaves)} leaves")
+    if one is None:
+        if want_keys:
+            ctx.viol("C20.onetree", case, f"tree_from_triples is None although {len(want_keys)} displaying tree(s) exist")
+    else:
+        R1, rn1 = model_of(nested_of_ete(one))
+        bad = next((tr for tr in triples if not displays(R1, rn1, tuple(tr))), None)
+        if not want_keys:
+            ctx.viol("C20.onetree", case, "tree_from_triples returned a tree for an inconsistent triple set")
+        elif bad is not None or sorted(rn1) != sorted(leaves):
+            ctx.viol("C20.onetree", case, f"tree_from_triples returned a tree that does not display {bad}")
+    ctx.sig(("comptriples", len(leaves), len(triples), min(len(want_keys), 200)), True)
+    if len(want_keys) > 1:
+        ctx.sample(case)
 
 
 def _leaves_of(x):
@@ -451,6 +676,12 @@ def canaries(ctx):
     ok &= not displays(S, sn, ("a", "b", "c"))
     ok &= len(model_all_trees("abc", [])) == 3 and len(model_all_trees("abcd", [])) == 15
     ok &= len(model_all_trees("abc", [("a", "b", "c"), ("a", "c", "b")])) == 0
+    g = grow_oracle(list("abcd"), [])
+    ok &= g is not None and len(g) == 15 and set(g.values()) == {1}
+    g = grow_oracle(list("abcde"), [("a", "b", "c"), ("d", "e", "a")])
+    w = collections.Counter(frozenset(c for c in cl if len(c) >= 2) for cl in model_all_trees("abcde", [("a", "b", "c"), ("d", "e", "a")]))
+    ok &= g == w and len(w) > 0
+    ok &= len(grow_oracle(list("abc"), [("a", "b", "c"), ("a", "c", "b")])) == 0
     p, r = model_partition(4, [(0, 1), (1, 0), (2, 3)])
     ok &= r == [True, False, True] and len(p) == 2 and len(two_block_coarsenings(p)) == 1
     ok &= len(two_block_coarsenings(model_partition(4, [])[0])) == 7
@@ -509,6 +740,9 @@ def run(ctx, spec):
         check_triple_set(ctx, leaves, sorted(set(sub)))
     for _ in range(spec.get("nbigtriples", 12)):
         check_big_triples(ctx, rng, rng.choice([12, 14, 15, 16, 16, 17]))
+    for _ in range(spec.get("ncomp", 0)):
+        leaves, triples, hidden, _comps = component_case(rng)
+        check_component_triples(ctx, leaves, triples, hidden)
     for _ in range(spec["nsuper"]):
         check_supertree(ctx, rng, rng.choice([4, 5, 5, 6]))
     pairs = list(itertools.combinations(range(5), 2))
@@ -552,6 +786,8 @@ def replay(ctx, case):
             if bad is not None or not R.is_binary() or sorted(rn) != sorted(case["leaves"]):
                 ctx.viol("C20.alltrees", case, f"a returned tree does not display {bad}")
                 break
+    elif case["kind"] == "comptriples":
+        check_component_triples(ctx, case["leaves"], [tuple(t) for t in case["triples"]], case.get("hidden"), budget_s=60)
     elif case["kind"] == "dsu":
         check_dsu(ctx, case["n"], [tuple(h) for h in case["history"]])
     else:
